@@ -56,8 +56,13 @@ def to_us(t):
     return (t - EPOCH) // US
 
 
+DEFAULT_TIMEOUT = {"hours": 12}     # /start-instance(s) without a "timeout" key
+
+
 def micros(tdict):
-    return _dt.timedelta(**tdict) // US
+    if tdict is None:
+        tdict = DEFAULT_TIMEOUT
+    return _dt.timedelta(**{k: v for k, v in tdict.items() if k in UNITS}) // US     # create_instance ignores keys that are no unit
 
 
 # ------------------------------------------------------------------ the server under test
@@ -94,14 +99,24 @@ class Server:
         if not real_time:
             self.clock = FakeClock()
             self.clock.install()
-        self.app = BptkServer("c17app", factory, FileAdapter(False, self.dir), None)
-        self.app.logger.disabled = True
-        logging.getLogger("werkzeug").disabled = True
-        self.client = self.app.test_client()
+        self._factory = factory
+        self._make_app()
         self.uuid_of = {}      # nat id -> uuid
         self.nat_of = {}       # uuid -> nat id
         self.obj_nat = {}      # python id of a bptk object -> nat id of the instance it serves
         self.t0 = _dt.datetime.now()
+        self.shown = []        # destroy log as reported: the ids destroyed by one request in ascending order
+        self.restored_ids = set()
+
+    def _make_app(self):
+        """(re)start the server process on the state directory: BptkServer.__init__ loads every stored instance"""
+        from BPTK_Py.server import BptkServer
+        from BPTK_Py.externalstateadapter import FileAdapter
+        srv = self
+        self.app = BptkServer("c17app", self._factory, FileAdapter(False, self.dir), None)
+        self.app.logger.disabled = True
+        logging.getLogger("werkzeug").disabled = True
+        self.client = self.app.test_client()
         # a restored instance can be swept inside the very request that restored it (the clock moves between the reads):
         # learn which id its bptk object serves as soon as it is reconstructed, not only at the next observation
         im, orig_rec = self.app._instance_manager, self.app._instance_manager.reconstruct_instance
@@ -110,8 +125,12 @@ class Server:
             srv._learn()
             return r
         im.reconstruct_instance = reconstruct
-        self.shown = []        # destroy log as reported: the ids destroyed by one request in ascending order
-        self.restored_ids = set()
+        orig_create = im.create_instance
+        def create(**timeout):          # /start-instances: an instance can be created and swept within one request
+            u = orig_create(**timeout)
+            srv._learn()
+            return u
+        im.create_instance = create
 
     # ---- observation (no request, no sweep)
     def _learn(self):
@@ -159,8 +178,13 @@ class Server:
         Returns (ok, ids reported by a metrics request or None)."""
         c, k = self.client, ev[0]
         reported = None
+        if k == "restart":
+            self._make_app()
+            return True, None
         if k == "create":
-            r = c.post("/start-instance", json={"timeout": ev[1]})
+            r = c.post("/start-instance", json={"timeout": ev[1]}) if ev[1] is not None else c.post("/start-instance")
+        elif k == "creates":
+            r = c.post("/start-instances", json=dict({"instances": ev[1]}, **({"timeout": ev[2]} if ev[2] is not None else {})))
         elif k == "access":
             u, kind = self.uuid(ev[1]), ev[2]
             if kind == "begin":
@@ -169,6 +193,12 @@ class Server:
                 r = c.get(f"/{u}/session-results")
             elif kind == "step":
                 r = c.post(f"/{u}/run-step", json={"settings": {}})
+            elif kind == "flat":
+                r = c.get(f"/{u}/flat-session-results")
+            elif kind == "steps":
+                r = c.post(f"/{u}/run-steps", json={"numberSteps": 2, "settings": {}})
+            elif kind == "stream":
+                r = c.post(f"/{u}/stream-steps", json={"settings": {}})
             else:
                 r = c.post(f"/{u}/end-session")
         elif k == "keepalive":
@@ -187,8 +217,12 @@ class Server:
             r = c.get("/full-metrics")
             d = json.loads(r.get_data(as_text=True))
             self._learn()
-            reported = ("ids", sorted(self.nat_of.get(u, -1) for u in d if u not in ("instanceCount", "threadCount")), d.get("instanceCount"))
-        r.get_data()
+            reported = ("ids", sorted(self.nat_of.get(u, -1) for u in d if u not in ("instanceCount", "threadCount")), d.get("instanceCount"),
+                        {self.nat_of.get(u, -1): v.get("startTime") for u, v in d.items() if isinstance(v, dict)})
+        try:
+            r.get_data()
+        except Exception:
+            return False, reported      # the streamed body raised
         return r.status_code == 200, reported
 
     def close(self):
@@ -207,6 +241,33 @@ class Server:
         shutil.rmtree(self.dir, ignore_errors=True)
 
 
+# the seven instance-scoped views and the four behaviours the model distinguishes
+MODEL_KIND = {"flat": "results", "steps": "step", "stream": "step"}
+STEPPING = ("step", "steps", "stream")
+
+
+def model_lines(now, ev, incs, observed):
+    """protocol lines of one request and the replies they are compared with ("*" = not compared): /start-instances
+    with n instances under a fixed clock is n creations at that clock value"""
+    if ev[0] == "creates":
+        n = ev[1]
+        return [ev_line(now, ev, [])] * n, ["*"] * (n - 1) + [observed.rsplit(";reads=", 1)[0]]
+    return [ev_line(now, ev, incs)], [observed]
+
+
+def row_of(ev):
+    """row of the wave-7 coverage table a generated request belongs to"""
+    if ev[0] == "access":
+        return "request:" + ev[2]
+    if ev[0] in ("create", "creates"):
+        td = ev[-1]
+        kind = "default" if td is None else "empty" if not td else "unknown-key" if any(k not in UNITS for k in td) else \
+            "negative-or-fractional" if any(v < 0 or v != int(v) for v in td.values()) else "zero" if micros(td) == 0 else \
+            ">=1day" if micros(td) >= DAY else "<1s" if micros(td) < 10**6 else "int"
+        return ev[0] + ":timeout-" + kind
+    return ev[0]
+
+
 def norm(item):
     """history items are (t, event) or (t, event, increments)"""
     return (item[0], tuple(item[1]), list(item[2]) if len(item) > 2 and item[2] else [])
@@ -217,8 +278,12 @@ def ev_line(now, ev, incs=()):
     head = f"evr {now} {','.join(map(str, incs)) if incs else '-'}"
     if k == "create":
         return f"{head} create {micros(ev[1])}"
+    if k == "creates":
+        return f"{head} create {micros(ev[2])}"      # one line per instance (see model_lines)
+    if k == "restart":
+        return f"{head} loadord {','.join(map(str, ev[1])) if ev[1] else '-'}"
     if k == "access":
-        return f"{head} access {ev[1]} {ev[2]}"
+        return f"{head} access {ev[1]} {MODEL_KIND.get(ev[2], ev[2])}"
     if k == "keepalive":
         return f"{head} keepalive {ev[1]}"
     if k == "stop":
@@ -248,7 +313,7 @@ def ref_check(before, now, ev, ok, reported, after, hi=None):
     target = ev[1] if ev[0] in ("access", "keepalive") else None
     def valid(j):
         return j in b or (ev[0] == "access" and j in before["stored"])
-    trigger = ev[0] in ("create", "metrics", "fullmetrics") or (target is not None and valid(target))
+    trigger = ev[0] in ("create", "creates", "metrics", "fullmetrics") or (target is not None and valid(target))
     stopped = ev[1] if ev[0] == "stop" else None
     if stopped is not None and (stopped in a or stopped in after["stored"]):
         out.append(("stop-not-gone", f"stop-instance {stopped} at {now}: afterwards live={stopped in a}, state file={stopped in after['stored']}"))
@@ -256,6 +321,8 @@ def ref_check(before, now, ev, ok, reported, after, hi=None):
         dcount = after["destroyed"].count(k) - before["destroyed"].count(k)
         if k == stopped:
             continue            # removed on explicit request, not by the timeout
+        if ev[0] == "restart" and k not in before["stored"]:
+            continue            # the server process was restarted: an instance that was never externalised is lost with it
         if hi < l + tau:        # the whole request lies before last access + timeout
             if k not in a:
                 out.append(("removed-early", f"instance {k} (last access {l}, timeout {tau}) removed by {ev} in [{lo},{hi}] < {l + tau}"))
@@ -279,7 +346,7 @@ def ref_check(before, now, ev, ok, reported, after, hi=None):
                 out.append(("timestamp-before-request", f"{ev} arriving at {lo} on present instance {k}: stored last access {a[k][0]} is earlier than every clock read of the request"))
             elif a[k][0] > hi:
                 out.append(("access-no-reset", f"{ev} in [{lo},{hi}] on present instance {k} (timeout {tau}): afterwards {a.get(k)}"))
-            if not ok and not (ev[0] == "access" and ev[2] == "step" and not b[k][2]):
+            if not ok and not (ev[0] == "access" and ev[2] in STEPPING and not b[k][2]):
                 out.append(("live-id-refused", f"{ev} at {now} on present instance {k} (timeout {tau}) answered non-200"))
     for k in a:
         if k not in b and not (lo <= a[k][0] <= hi):
@@ -299,7 +366,11 @@ def ref_check(before, now, ev, ok, reported, after, hi=None):
     if reported is not None:
         # full-metrics lists the instances that have a session, and counts all of them
         if reported[0] == "ids" and (reported[1] != sorted(k for k in a if a[k][2]) or reported[2] != len(a)):
-            out.append(("metrics-mismatch", f"full-metrics at {now} reports {reported[1:]} but live set is {sorted(a)} (with session: {sorted(k for k in a if a[k][2])})"))
+            out.append(("metrics-mismatch", f"full-metrics at {now} reports {reported[1:3]} but live set is {sorted(a)} (with session: {sorted(k for k in a if a[k][2])})"))
+        if reported[0] == "ids" and len(reported) > 3:
+            for k, st in reported[3].items():       # the startTime full-metrics shows is the stored last-access time
+                if k in a and st != str(EPOCH + a[k][0] * US):
+                    out.append(("metrics-mismatch", f"full-metrics at {now} shows startTime {st!r} for instance {k} whose last access is {EPOCH + a[k][0] * US}"))
         if reported[0] == "count" and reported[1] != len(a):
             out.append(("metrics-mismatch", f"metrics at {now} reports instance_count {reported[1]} but live set is {sorted(a)}"))
     return out
@@ -310,7 +381,7 @@ SHORT = [lambda r: {"milliseconds": r.range(1, 2000)}, lambda r: {"seconds": r.r
          lambda r: {"seconds": 1, "milliseconds": r.range(0, 900)}, lambda r: {"seconds": r.range(1, 3), "microseconds": r.range(0, 5)}]
 LONG = [lambda r: {"minutes": r.range(5, 90)}, lambda r: {"hours": r.range(1, 5)}, lambda r: {"days": r.range(1, 3)}, lambda r: {"weeks": 1},
         lambda r: {"hours": 12, "minutes": 0, "seconds": 0}]
-ODD = [{"seconds": -3}, {"seconds": 0.5}, {"milliseconds": 1.5}, {"microseconds": 2.5}, {"microseconds": 3.5}, {"minutes": 0.25, "seconds": -10},
+ODD = [{"seconds": 2, "fortnights": 1}, {"seconds": -3}, {"seconds": 0.5}, {"milliseconds": 1.5}, {"microseconds": 2.5}, {"microseconds": 3.5}, {"minutes": 0.25, "seconds": -10},
        {"seconds": 1, "microseconds": -1}, {"microseconds": -0.5}, {"hours": -1, "minutes": 60, "seconds": 2}, {"days": 0.25}, {"milliseconds": -1},
        {"seconds": 2.25, "microseconds": 0.5}, {"weeks": 0.25, "days": -1.75, "milliseconds": 0.5}]
 
@@ -340,17 +411,27 @@ def next_event(rng, o, now, ncreated, max_inst):
     r = rng.below(100)
     known = list(range(ncreated))
     if (r < 18 or not known) and ncreated < max_inst:
-        ev = ("create", gen_timeout(rng))
+        td = gen_timeout(rng) if rng.chance(11, 12) else None           # None: no "timeout" key -> the default of 12 hours
+        n = rng.range(1, 3)
+        ev = ("creates", n, td) if rng.chance(1, 6) and ncreated + n <= max_inst + 1 else ("create", td)
     elif r < 55 and known:
-        ev = ("access", rng.choice(known) if rng.chance(9, 10) else ncreated + rng.below(2), rng.choice(["begin", "results", "step", "step", "end", "results"]))
+        tgt = rng.choice(known) if rng.chance(9, 10) else ncreated + rng.below(2)
+        kind = rng.choice(["begin", "results", "step", "step", "end", "results", "flat", "steps", "steps", "stream"])
+        if kind == "stream" and any(i == tgt and not sess for i, _, _, sess in live):
+            kind = "steps"       # stream-steps on a live instance without session answers 200 and fails inside the streamed body
+        ev = ("access", tgt, kind)
     elif r < 70 and known:
         ev = ("keepalive", rng.choice(known) if rng.chance(9, 10) else ncreated + rng.below(2))
     elif r < 74 and known:
         ev = ("stop", rng.choice(known) if rng.chance(9, 10) else ncreated)
     elif r < 78:
         ev = ("savestate",)
-    elif r < 83:
+    elif r < 81:
         ev = ("loadstate",)
+    elif r < 83:
+        # restart of the server process on the state directory — only when every live instance is externalised, so that the
+        # model's load-state (which overwrites the live entries) describes it exactly
+        ev = ("restart",) if all(i in o["stored"] for i, *_ in live) else ("loadstate",)
     elif r < 92:
         ev = ("metrics",)
     else:
@@ -376,8 +457,8 @@ def next_event(rng, o, now, ncreated, max_inst):
 def gen_incs(rng, ev, nlive):
     """clock increments between the reads of ONE request (µs): none (fixed clock), all 1 (so that an expiry
     boundary aimed at by the start time falls between two particular reads), or small random steps"""
-    if ev[0] in ("stop", "savestate"):
-        return []        # no clock read
+    if ev[0] in ("stop", "savestate", "creates"):
+        return []        # no clock read / n creations in one request are modelled under a fixed clock
     r = rng.below(10)
     if r < 4:
         return []
@@ -482,8 +563,8 @@ def run_history(events, on_step=None):
         before = s.observe()
         for idx, item in enumerate(events):
             now, ev, incs = norm(item)
-            if ev[0] == "loadstate":
-                ev = ("loadstate", s.listing())     # the order is observed on this run, never taken from a stored history
+            if ev[0] in ("loadstate", "restart"):
+                ev = (ev[0], s.listing())     # the order is observed on this run, never taken from a stored history
                 events[idx] = (now, ev, incs)
             s.clock.begin(now, incs)
             ok, rep = s.do(ev)
@@ -510,8 +591,8 @@ def generate_and_run(rng, n_events, max_inst):
         now, o = 0, s.observe()
         for idx in range(n_events):
             now, ev, incs = next_event(rng, o, now, len(s.uuid_of), max_inst)
-            if ev[0] == "loadstate":
-                ev = ("loadstate", s.listing())
+            if ev[0] in ("loadstate", "restart"):
+                ev = (ev[0], s.listing())
             s.clock.begin(now, incs)
             ok, rep = s.do(ev)
             reads = s.clock.reads
@@ -556,7 +637,7 @@ def track(s, before, ev, after):
             s.restored_ids.discard(k)
     if ev[0] in ("access", "keepalive") and ev[1] not in b and ev[1] in a:
         s.restored_ids.add(ev[1]); STATS["restores"] += 1
-    if ev[0] == "loadstate":
+    if ev[0] in ("loadstate", "restart"):
         for k in a - b:
             s.restored_ids.add(k); STATS["restores"] += 1
         STATS["loadstate_overwrites"] += len(a & b & set(before["stored"]))
@@ -630,6 +711,18 @@ def fixed_histories():
         [(0, ("create", {"hours": 2})), (0, ("create", {"hours": 25})), (1, ("access", 1, "begin")), (2, ("access", 1, "step")), (DAY + S, ("keepalive", 1)),
          (DAY + S, ("fullmetrics",)), (2 * DAY + 2 * S + 3600 * S, ("metrics",)), (3 * DAY, ("loadstate",), [5]), (3 * DAY + 25 * 3600 * S + 4, ("metrics",)),
          (3 * DAY + 25 * 3600 * S + 5, ("metrics",))],
+        # wave 7: every instance-scoped view restarts the timer / restores / is refused — flat-session-results, run-steps, stream-steps too
+        [(0, ("create", {"seconds": 2})), (0, ("create", {"hours": 1})), (1, ("access", 0, "begin")), (2, ("access", 0, "steps")), (1_500_000, ("access", 0, "flat"), [1, 1, 1]),
+         (3_400_000, ("access", 0, "stream")), (5_399_999, ("metrics",)), (5_400_000, ("metrics",)), (6 * S, ("access", 0, "flat")), (8 * S, ("access", 1, "flat")),
+         (9 * S, ("access", 0, "steps"), [2, 2, 2, 2]), (11 * S + 8, ("fullmetrics",)), (12 * S, ("access", 0, "stream")), (13 * S, ("access", 1, "steps")),
+         (20 * S, ("stop", 0)), (20 * S, ("access", 0, "flat")), (20 * S, ("access", 0, "steps")), (20 * S, ("access", 0, "stream")), (21 * S, ("access", 7, "stream"))],
+        # wave 7: /start-instances (n creations, each with its own sweep) as a trigger; no "timeout" key -> 12 hours; a key that is no unit is ignored
+        [(0, ("create", {"seconds": 1})), (0, ("create", None)), (S, ("creates", 3, {"milliseconds": 500})), (S + 499_999, ("fullmetrics",)), (S + 500_000, ("creates", 2, None)),
+         (12 * 3600 * S - 1, ("metrics",)), (12 * 3600 * S, ("create", {"seconds": 2, "fortnights": 1})), (12 * 3600 * S + 2 * S, ("creates", 1, {})), (13 * 3600 * S, ("fullmetrics",))],
+        # wave 7: restart of the server process on the state directory: externalised instances come back with the timer started at the restart
+        [(0, ("create", {"seconds": 3})), (0, ("create", {"minutes": 1})), (1, ("access", 0, "begin")), (2, ("access", 1, "begin")), (3, ("savestate",)),
+         (2 * S, ("restart",), [7]), (5 * S, ("metrics",)), (5 * S + 7, ("fullmetrics",)), (6 * S, ("access", 0, "flat")), (9 * S + 1, ("restart",)), (12 * S, ("metrics",)),
+         (12 * S + 1, ("metrics",)), (70 * S, ("restart",)), (70 * S, ("fullmetrics",)), (129 * S, ("keepalive", 1)), (130 * S + 1, ("metrics",))],
         # a request that lasts longer than the timeout of the instance it addresses
         [(0, ("create", {"microseconds": 10})), (5, ("access", 0, "results"), [4, 4, 4]), (100, ("create", {"microseconds": 10})), (105, ("keepalive", 1), [20, 20])],
         # every unit
@@ -854,6 +947,7 @@ def run(chk):
     all_viols = []     # (history index, events, idx, key, text)
     hists = []
     dist = {"events": {}, "units": {}, "ok": 0, "err": 0, "expiries": 0, "restores": 0, "histories": 0}
+    rows = {}
     with contextlib.redirect_stdout(sink):
         # unit conversion stream
         rng = chk.rng.fork("c17-units")
@@ -883,15 +977,18 @@ def run(chk):
         prev_destroyed = 0
         for j, (item, ln) in enumerate(zip(evs, lines)):
             now, ev, incs = norm(item)
-            req.append(ev_line(now, ev, incs)); real.append(ln); ctx.append((hi, j))
+            ml, rl = model_lines(now, ev, incs, ln)
+            for a_, b_ in zip(ml, rl):
+                req.append(a_); real.append(b_); ctx.append((hi, j))
+            rows[row_of(ev)] = rows.get(row_of(ev), 0) + 1
             if incs:
                 dist["requests_with_increments"] = dist.get("requests_with_increments", 0) + 1
             dist["events"][ev[0]] = dist["events"].get(ev[0], 0) + 1
             if ev[0] == "create":
-                for u, v in ev[1].items():
+                for u, v in (ev[1] or {}).items():
                     if v:
                         dist["units"][u] = dist["units"].get(u, 0) + 1
-                if any(v < 0 or v != int(v) for v in ev[1].values()):
+                if ev[1] and any(v < 0 or v != int(v) for v in ev[1].values()):
                     dist["odd_timeouts"] = dist.get("odd_timeouts", 0) + 1
             dist["ok" if ln.startswith("ok") else "err"] += 1
             nd = len([x for x in ln.split(";destroyed=")[1].split(";")[0].split(",") if x])
@@ -906,6 +1003,7 @@ def run(chk):
     chk.cov["traces_validated_against_impl"] = len(hists)
     dist.update(STATS)
     chk.cov["input_distribution"] = dist
+    chk.notes["coverage_rows"] = dict(sorted(rows.items()))
     chk.cov["rule"] = ("timed histories of 8..40 requests over <= 4 instances generated online from the observed server state (create with a timeout in "
                        "1..4 of the 7 units incl. 0, short/long mixes, negative and fractional values; begin/results/step/end/keep-alive on live, expired, externalised "
                        "and unknown ids, metrics, full-metrics, stop-instance, save-state, load-state); plus scripted restored-instance patterns with random parameters "
@@ -918,7 +1016,9 @@ def run(chk):
                        "times, timeouts, session flags, the destroy() log and the external state listing are compared with the model; "
                        "a case is the canonical event list; non-trivial = at least one instance expired")
     chk.cov["exhaustive"] = False
-    diff = next((i for i, (a, b) in enumerate(zip(model, real)) if a != b), None)
+    def same(m_, r_):
+        return r_ == "*" or m_ == r_ or (";reads=" not in r_ and m_.rsplit(";reads=", 1)[0] == r_)
+    diff = next((i for i, (a, b) in enumerate(zip(model, real)) if not same(a, b)), None)
     if diff is None and len(model) != len(real):
         diff = min(len(model), len(real))
     seen = set()
